@@ -695,19 +695,29 @@ func dnsVerdictOf(lines []string, byText map[string]srule, dnsReq *urlfilter.DNS
 
 func dnsVerdictOn(st *filterlist.RuleStorage, byText map[string]srule, dnsReq *urlfilter.DNSRequest) string {
 	e := urlfilter.NewDNSEngine(st)
-	res, ok := e.MatchRequest(dnsReq)
-	if isBad(res.NetworkRule) {
-		return "badfilter rule returned"
+	// the name as resolvers send it, and the same name in the mixed-case spelling of a "0x20" query
+	mixed := *dnsReq
+	mixed.Hostname = strings.ToUpper(dnsReq.Hostname[:1]) + dnsReq.Hostname[1:]
+	if i := strings.IndexByte(mixed.Hostname, '.'); i >= 0 && i+2 < len(mixed.Hostname) {
+		mixed.Hostname = mixed.Hostname[:i+1] + strings.ToUpper(mixed.Hostname[i+1:i+2]) + mixed.Hostname[i+2:]
 	}
-	var rw, hosts []string
-	for _, r := range res.DNSRewrites() {
-		if isBad(r) {
-			return "badfilter rewrite returned"
+	var out []string
+	for _, rq := range []*urlfilter.DNSRequest{dnsReq, &mixed} {
+		res, ok := e.MatchRequest(rq)
+		if isBad(res.NetworkRule) {
+			return "badfilter rule returned"
 		}
-		rw = append(rw, r.RuleText)
+		var rw, hosts []string
+		for _, r := range res.DNSRewrites() {
+			if isBad(r) {
+				return "badfilter rewrite returned"
+			}
+			rw = append(rw, r.RuleText)
+		}
+		for _, h := range res.HostRulesV4 {
+			hosts = append(hosts, h.RuleText)
+		}
+		out = append(out, fmt.Sprintf("%s: matched=%v rule=%s hosts=%v rewrites=%v", rq.Hostname, ok, verdictOf(res.NetworkRule, byText), hosts, rw))
 	}
-	for _, h := range res.HostRulesV4 {
-		hosts = append(hosts, h.RuleText)
-	}
-	return fmt.Sprintf("matched=%v rule=%s hosts=%v rewrites=%v", ok, verdictOf(res.NetworkRule, byText), hosts, rw)
+	return strings.Join(out, " / ")
 }
